@@ -796,6 +796,12 @@ class VarsManager(object):
                 has_constrains = True
             if k + "i" in self.bnd_dic:
                 has_constrains = True
+            # a fixed modulus or phase is a constraint as well: flipping the
+            # sign of r would move the fixed phase by pi (and vice versa)
+            fixed_r = k + "r" not in self.trainable_vars
+            fixed_i = k + "i" not in self.trainable_vars
+            if fixed_r != fixed_i:
+                has_constrains = True
             if has_constrains:
                 continue
             self.std_polar(k)
